@@ -8,6 +8,27 @@
 # rule: how cases are generated and what makes one non-trivial / distinct (copied into evidence)
 
 PROPS = {
+    "C12": {
+        "level": "exploration",
+        "rule": "TestC12ParseRobust: strings over an alphabet of both quotes, colon, ASCII and unicode spaces, letters, emoji and the "
+                "documented keywords - Parse returns a value or an error, never panics, deterministically. TestC12RoundTrip: structured "
+                "queries (status / author / actor / participant / label / title / metadata k:v / no:label / search terms / at most one "
+                "sort in all 9 documented spellings) rendered through the grammar of doc/queries.md with the quoting a user needs "
+                "(values with spaces, colons or one kind of quote; tokens of different kinds interleaved, various separators) must "
+                "parse to exactly the structure; 10 malformed variants must be errors. TestC12Evaluate: populations of 2..14 bugs by "
+                "1..4 identities with shared name fragments and mixed case, labels, statuses, create metadata, comments and editors, "
+                "12..20 queries each with 1..3 qualifier kinds; oracle = reference evaluator over snapshots read from git without the "
+                "cache (any-of / all-of rules of the statement, case-insensitive name/login substring, id prefix), duplicate-free, "
+                "monotone in the primary sort key, result(search+filters) = result(search) INTERSECT reference(filters), planted tokens "
+                "found. Non-trivial: >=2 kinds, a quoted value or explicit sort (parse); a population with a query whose result is "
+                "neither empty nor everything (evaluation). Distinct: abstracted token shape / population size and partial-result count.",
+        "assumptions": ["ties in the sort key may come in any order", "values containing both kinds of quote and empty values are not expressible and not generated",
+                        "qualifier names are matched case-sensitively (the statement promises case-insensitive matching of names, logins and ids only)"],
+        "tests": [{"name": "TestC12ParseRobust", "quick": 20000, "thorough": 200000, "shards": 4},
+                  {"name": "TestC12RoundTrip", "quick": 5000, "thorough": 50000, "shards": 4},
+                  {"name": "TestC12Evaluate", "quick": 50, "shards_quick": 3, "thorough": 300, "shards": 12},
+                  {"name": "FuzzQueryParse", "fuzztime": 60}],
+    },
     "C11": {
         "level": "exploration",
         "rule": "TestC11CacheVsRebuild: two users on two go-git repositories sharing a bare remote, used only through "
@@ -207,6 +228,12 @@ PROPS = {
 
 # Text for MANIFEST.json, per claimed property.
 MANIFEST_TEXT = {
+    "C12": {
+        "technique": "property-based testing (rapid): grammar-based query generation with parse round trip; reference evaluator over generated bug populations; native fuzzing of the parser in the thorough tier",
+        "level_text": "Round-trip and differential oracles over generated query strings and populations. Exploration.",
+        "design_ref": "DESIGN.md §4 C12",
+        "level_note": "Trusted: the reference evaluator as a reading of the statement and doc/queries.md; bleve for full-text hits (only intersection and planted tokens are asserted).",
+    },
     "C11": {
         "technique": "stateful property-based testing (rapid) with a rebuild differential after every action; stress of the concurrent cache build",
         "level_text": "Differential oracle: after each generated cache-level action everything the live cache serves is compared with a "
